@@ -36,6 +36,8 @@ def run_composite(pid, tier, seed, plans):
             cov.setdefault("interp_stats", {})
             cov["interp_stats"][k] = cov["interp_stats"].get(k, 0) + v
         cov["repo_include_hash"] = c.get("repo_include_hash")
+        for k in ("cross_configuration_groups_compared", "cross_configuration_differences"):
+            cov[k] = cov.get(k, 0) + c.get(k, 0)
     assumptions = []
     for e in parts:
         for a in e.get("assumptions", []):
@@ -108,7 +110,7 @@ def run_plan(pid, tier, seed, plan, evidence_name=None):
                 nuse = n
                 if frac < 1.0:
                     use = os.path.join(wd, "%s.%s.sample" % (w["name"], tag))
-                    nuse = se.sample_file(scripts, n, max(1, int(n * frac)), seed * 7919 + wi, use)
+                    nuse = se.sample_file(scripts, n, max(1, int(n * frac)), w.get("sample_seed", seed * 7919 + wi), use)
                 tasks += se.make_tasks(exe, w["name"], use, nuse, plan["trace_module"], wd, "%s-%s" % (w["name"], tag),
                                        interp_args=w.get("args", ()), reset_event=plan.get("reset_event", '"e":"rs"'), max_rej=1,
                                        trace_env=w.get("trace_env"))
@@ -136,6 +138,16 @@ def run_plan(pid, tier, seed, plan, evidence_name=None):
             best = max(ws.values(), key=lambda x: x[0])
             for k, v in best[1].items():
                 stats[k] = stats.get(k, 0) + v
+        # configuration independence (C20): worlds of one equivalence group ran the same scripts and must have produced identical traces
+        groups = {}
+        for r in results:
+            exe, w = exe_of[r["world"]]
+            if w.get("equiv_group") and not r["rejections"]:
+                groups.setdefault((w["equiv_group"], r["tag"][len(r["world"]) + 1:], r["idx"]), []).append((r["world"], r["digest"]))
+        cross = []
+        for key, lst in groups.items():
+            if len(set(d for _, d in lst)) > 1:
+                cross.append({"group": key[0], "script_set": key[1], "chunk": key[2], "digests": lst})
         for w in worlds:
             pw = per_world.get(w["name"], [0, 0])
             world_notes.append({"world": w["name"], "executions": pw[0], "events": pw[1]})
@@ -166,6 +178,11 @@ def run_plan(pid, tier, seed, plan, evidence_name=None):
                                        "trace": ex, "interp_rc": r.get("interp_rc"), "interp_err": r.get("interp_err", ""), "finding_key": key})
             print("VIOLATION property=%s replay=%s" % (pid, replay))
             violations += 1
+        for c in cross[:3]:
+            replay = write_replay(pid, {"property": pid, "engine": "cross", "what": "worlds that differ only in compiler / standard / optimisation / threading / map / storage "
+                                       "pre-fill produced different traces for the same scripts", "detail": c})
+            print("VIOLATION property=%s replay=%s" % (pid, replay))
+            violations += 1
         script_samples = []
         for tag, scripts, n, _ in script_sets:
             with open(scripts) as f:
@@ -182,7 +199,8 @@ def run_plan(pid, tier, seed, plan, evidence_name=None):
                "rule": plan["rule"], "samples": script_samples[:4] + samples[:1],
                "exhaustive": all(w.get("fraction", 1.0) >= 1.0 for w in worlds[:1]) and all(m.get("role", "cover") != "simulate" for m in plan["models"][:1]),
                "models": model_notes, "worlds": world_notes, "defect_sensitivity": defect_notes, "interp_stats": stats,
-               "repo_include_hash": repo_hash(), "further_rejections_not_individually_reported": extra_rejections}
+               "repo_include_hash": repo_hash(), "further_rejections_not_individually_reported": extra_rejections,
+               "cross_configuration_groups_compared": len(groups), "cross_configuration_differences": len(cross)}
         write_evidence(evidence_name or pid, tier, seed, plan.get("level", "model_checking"), cov, time.time() - t0, violations, plan.get("assumptions", ()))
         if evidence_name:
             ep = os.path.join(EVID, evidence_name + ".json")
